@@ -50,6 +50,9 @@ RecvEnd(r) == /\ taken[r] # None
               /\ received' = [received EXCEPT ![r] = Append(@, taken[r])] /\ taken' = [taken EXCEPT ![r] = None]
               /\ UNCHANGED <<queue, handoff, nextSend, announced, closed, gotNil>>
 \* the script closes the channel after every sender thread has been waited for
+\* a send on a closed channel is refused with an error in every form (statement, .send(), spawned .send): it hands
+\* nothing over and is not announced - a stuttering step of this specification
+SendRefused(s) == closed /\ UNCHANGED vars
 Close == /\ ~closed /\ \A s \in Senders: nextSend[s] > Msgs /\ handoff[s] = None
          /\ closed' = TRUE
          /\ UNCHANGED <<queue, handoff, nextSend, announced, received, taken, gotNil>>
